@@ -49,7 +49,7 @@ TYPES = {
     "np.ndarray": lambda v: isinstance(v, AList) and v.tag == "ndarray",
     "Number": lambda v: (isinstance(v, Tok) and v.kind == "num") or (isinstance(v, (int, float)) and not isinstance(v, bool)),
     "ODEVariable": lambda v: isinstance(v, Obj) and v.cls == "ODEVariable",
-    "sympy.Symbol": lambda v: isinstance(v, Tok) and v.kind == "sym",
+    "sympy.Symbol": lambda v: isinstance(v, Tok) and v.kind in ("sym", "usym"),
     "rv_frozen": lambda v: isinstance(v, Obj) and v.cls == "rv_frozen",
 }
 
@@ -73,7 +73,7 @@ def helper_summaries(names):
         raise Raised("InputError")
 
     def get_param_index(me, s):
-        if isinstance(s, Tok) and s.kind == "sym":
+        if isinstance(s, Tok) and s.kind in ("sym", "usym"):
             s = s.label
         elif isinstance(s, Obj) and s.cls == "ODEVariable":
             s = s.attrs["ID"]
@@ -89,8 +89,11 @@ def helper_summaries(names):
 GETTERS = {"num_param": lambda me: len(me.attrs["_paramList"]), "param_list": lambda me: me.attrs["_paramList"]}
 
 
-def run_setter(setter, me, value, names):
-    ab = Abs({}, TYPES, helper_summaries(names), me, GETTERS, eq=eq_hook)
+def run_setter(setter, me, value, names, extra=None):
+    summ = helper_summaries(names)
+    if extra:
+        summ.update(extra)
+    ab = Abs({}, TYPES, summ, me, GETTERS, eq=eq_hook)
     return ab.run_function(setter.node, {setter.params[1]: value})
 
 
@@ -269,15 +272,22 @@ def check(repo, res, tier):
             continue
         res.check(kind == "return" and got == want, "R-KV", setter, tag, "%s binds the single parameter" % tag,
                   "%s -> evaluation values %s (%s)" % (tag, got, kind), node=setter.node)
-    # ---- distribution-valued entries: drawn value bound to its own name, distribution remembered
-    me = model(NAMES)
-    d = {"b": Obj("rv_frozen", tag="B"), "a": vals[0], "c": vals[2]}
-    kind, _ = run_setter(setter, me, d, NAMES)
-    got = observe(me)
-    n_forms += 1
-    res.check(kind == "return" and got == [vals[0], Tok("draw(B)"), vals[2]] and me.attrs.get("_stochasticParam") is not None,
-              "R-KV", setter, "dict(frozen distribution)", "a draw from a distribution is bound to that parameter's own slot and the distribution is remembered",
-              "distribution-valued entry -> evaluation values %s, remembered=%s" % (got, me.attrs.get("_stochasticParam") is not None), node=setter.node)
+    # ---- distribution-valued entries: drawn value bound to its own name, distribution remembered; the draws are concrete numbers
+    #      (negative, zero, positive) so that code that inspects the drawn value is still interpreted
+    for draw in (-0.75, 0.0, 0.5):
+        me = model(NAMES)
+        me2, kind0, _ = expect_ok("seed-values", {"a": 9.0, "b": 8.0, "c": 7.0}, None, me)
+        d = {"b": Obj("rv_frozen", tag="B"), "a": vals[0], "c": vals[2]}
+        try:
+            kind, _ = run_setter(setter, me, d, NAMES, extra={"rv_frozen.rvs": lambda o, *a, **k: [draw]})
+        except Undecided as e:
+            res.undecided("R-KV", setter, "dict(frozen distribution, draw=%s)" % draw, "outside the modelled subset: %s" % e)
+            continue
+        got = observe(me)
+        n_forms += 1
+        res.check(kind == "return" and got == [vals[0], draw, vals[2]] and me.attrs.get("_stochasticParam") is not None,
+                  "R-KV", setter, "dict(frozen distribution, draw=%s)" % draw, "a draw from a distribution is bound to that parameter's own slot and the distribution is remembered",
+                  "distribution-valued entry with drawn value %s after earlier values [9.0, 8.0, 7.0] -> evaluation values %s, remembered=%s" % (draw, got, me.attrs.get("_stochasticParam") is not None), node=setter.node)
     res.floor("parameter input forms executed abstractly", n_forms, 70)
 
 
@@ -286,8 +296,10 @@ def sequences_of_three(setter, length=3):
     import itertools as _it
     full = {"list": lambda v: list(v), "tuple": lambda v: tuple(v), "ndarray": lambda v: nd(list(v)),
             "pairs": lambda v: [(NAMES[i], v[i]) for i in (1, 2, 0)], "dict": lambda v: {NAMES[i]: v[i] for i in (2, 1, 0)},
-            "symdict": lambda v: {Tok(NAMES[i], "sym"): v[i] for i in (0, 2, 1)}}
-    partial = {"partial(b)": lambda v: {"b": v[1]}, "partial(sym c,a)": lambda v: {Tok("c", "sym"): v[2], Tok("a", "sym"): v[0]}}
+            "symdict": lambda v: {Tok(NAMES[i], "sym"): v[i] for i in (0, 2, 1)},
+            "user-symdict": lambda v: {Tok(NAMES[i], "usym"): v[i] for i in (1, 0, 2)}}
+    partial = {"partial(b)": lambda v: {"b": v[1]}, "partial(sym c,a)": lambda v: {Tok("c", "sym"): v[2], Tok("a", "sym"): v[0]},
+               "partial(user sym b)": lambda v: {Tok("b", "usym"): v[1]}}
     forms = dict(full)
     forms.update(partial)
     bad, n = [], 0
@@ -312,7 +324,7 @@ def sequences_of_three(setter, length=3):
                         break
                     if lab in full:
                         ref = {NAMES[i]: v[i] for i in range(3)}
-                    elif lab == "partial(b)":
+                    elif lab in ("partial(b)", "partial(user sym b)"):
                         ref["b"] = v[1]
                     else:
                         ref["c"], ref["a"] = v[2], v[0]
